@@ -566,3 +566,13 @@ func (g *G1) IsNil() bool {
 func (e *G2) IsEmpty() bool {
 	return e.p == nil
 }
+
+// IsInfinity reports whether g is the identity element of G1 (false for an unset value).
+func (g *G1) IsInfinity() bool {
+	return g.p != nil && g.p.IsInfinity()
+}
+
+// IsInfinity reports whether e is the identity element of G2 (false for an unset value).
+func (e *G2) IsInfinity() bool {
+	return e.p != nil && e.p.IsInfinity()
+}
